@@ -743,6 +743,12 @@ class _Exporter:
         if self.skipped_initializers:
             value_infos = _translate_value_infos(graph.value_info)
             return self._substitute_initializers(script, function_name, value_infos)
+        if self.skip_initializers:
+            # Nothing was skipped: the function is not wrapped in make_model, so undo the extra indent.
+            return "\n".join(
+                line[len(_SINGLE_INDENT) :] if line.startswith(_SINGLE_INDENT) else line
+                for line in script.split("\n")
+            )
         return script
 
     def _substitute_initializers(
